@@ -447,6 +447,31 @@ def run(tier, seed):
                                               "enc s=0 syn=DER quiet=1"]))
                 meta4[cid4] = (tn_, depth, doc)
         res4 = drv.run_parallel(exe, cases4)
+        # the same frames fed in pieces (BER and XER are documented as restartable): two pieces split at positions spread
+        # over the encoding, and small pieces throughout; the final result must be that of the one-shot decode
+        cases5, meta5 = [], {}
+        for cid, m in meta.items():
+            if m[0] != "match":
+                continue
+            r = res.get(cid)
+            if r is None or r.status != "ok" or len(r.events) < 15 or r.events[0].get("rc") != "OK" or r.events[1].get("out") != m[4].hex():
+                continue
+            srcs = [("BER", m[4])]
+            if r.events[2].get("out") not in (None, "-") and r.events[12].get("rc") == "OK" and r.events[13].get("out") == m[4].hex():
+                srcs.append(("CXER", drv.unhex(r.events[2]["out"])))
+            for syn, x in srcs:
+                n = len(x)
+                if n < 3 or n > 4000 or (quick and rng.random() < 0.6):
+                    continue
+                cuts = sorted(set([1, n - 1] + [max(1, min(n - 1, (n * j) // 9)) for j in range(1, 9)]))
+                scheds = [str(k) for k in cuts] + [",".join(["3"] * min(n, 300)), ",".join(["1"] * min(n, 300))]
+                ops = []
+                for ch in scheds:
+                    ops += ["dec s=0 t=Frame syn=%s in=%s chunks=%s" % (syn, drv.hx(x), ch), "enc s=0 syn=DER", "free s=0"]
+                cid5 = len(cases5) + 1
+                cases5.append(drv.Case(cid5, ops))
+                meta5[cid5] = (m[1], syn, x, scheds, m[4].hex())
+        res5 = drv.run_parallel(exe, cases5)
         res3 = drv.run_parallel(exe, cases3)
         res2 = drv.run_parallel(exe, cases2)
 
@@ -604,6 +629,29 @@ def run(tier, seed):
                                   d.get("rc"), (e.get("out") or "-")[:40], der0[:40]), replay)
             else:
                 chk.count("xer_wrapper_rewriting_ok")
+        for cid5, (tn, syn, x, scheds, der0) in meta5.items():
+            r = res5.get(cid5)
+            if r is None or r.status == "notrun":
+                chk.inconcl("case not run")
+                continue
+            rk = mod.resolve(mod.types[tn]).kind
+            key = {"case": "chunked", "idkind": idk, "rowkind": rk, "syntax": syn}
+            replay = {"module": text, "row_type": tn, "input_hex": x.hex(), "syntax": syn}
+            chk.evaluations += 1
+            if safety(r, "%s frame carrying %s fed in pieces" % (syn, tn), key, replay):
+                continue
+            for j, ch in enumerate(scheds):
+                chk.evaluations += 1
+                chk.seen((ms, "chunked", syn, x, ch))
+                d = r.events[3 * j] if 3 * j < len(r.events) else {}
+                e = r.events[3 * j + 1] if 3 * j + 1 < len(r.events) else {}
+                if d.get("rc") != "OK" or e.get("out") != der0:
+                    chk.violation(dict(key, symptom="chunked-differs-from-one-shot"),
+                                  "%s frame carrying %s (%d bytes) fed in pieces of %s: final %s, DER %s; the one-shot decode is OK" % (
+                                      syn, tn, len(x), ch[:30], d.get("rc"), "equal" if e.get("out") == der0 else "differs"),
+                                  dict(replay, schedule=ch, trace=d.get("trace")))
+                    break
+                chk.count("chunked_ok_" + syn)
         for cid4, (tn, depth, doc) in meta4.items():
             r = res4.get(cid4)
             if r is None or r.status == "notrun":
